@@ -98,6 +98,10 @@ def call_kwargs(name, two_d=False, n=None, small=True):
             kw.update(max_half_window=6)
         if name == 'loess':
             kw.update(fraction=0.5)
+        if name == 'golotvin':
+            # with the defaults the mask is all False on the generated signals (a constant per-point output says nothing about
+            # ordering, shapes or aliasing); these values give a mixed mask for every generated size
+            kw.update(half_window=2, num_std=4.0, sections=4)
         if 'pspline' in name or name in ('mixture_model', 'irsqr', 'corner_cutting', 'mpspline'):
             if name not in ('corner_cutting',):
                 kw.update(num_knots=12)
